@@ -242,6 +242,12 @@ func judge(s *session, sequential bool) (fs []finding, st sessionStats, views []
 				}
 				ip, hasIP := ipOf(a)
 				sameIP := hasIP && sn.rq.peer.IP.IsValid() && ip == sn.rq.peer.IP.Unmap()
+				if !sn.rq.peer.IP.IsValid() {
+					st.add("dials_for_a_requester_without_an_ip_address", 1)
+					if !hasIP {
+						st.add("dials_of_a_name_for_a_requester_without_an_ip_address", 1)
+					}
+				}
 				if sameIP || !dataClause {
 					just[i] = append(just[i], j)
 					if sameIP {
